@@ -797,6 +797,25 @@ fn fp_tree_model<L: Lab>(m: &DecisionTree<f64, L>, p: &P, f: &mut Fingerprint) {
     fp_tree(m, &x, &q, true, f)
 }
 /// tie-free model: the persistence check proper (no hash-order dependence in `fit`/`predict`)
+/// several feature columns share one name (columns of a one-hot block, repeated measurements):
+/// names are labels, not keys
+fn tree_dupnames_dataset(p: &P) -> (Dataset<f64, usize, ndarray::Ix1>, Array2<f64>, Array2<f64>) {
+    let (x, y, _) = tree_data(p, 3);
+    let q = tree_queries(p, &x);
+    let names: Vec<String> = (0..x.ncols()).map(|j| if j % 2 == 0 { "reading".to_string() } else { "flag".to_string() }).collect();
+    (Dataset::new(x.clone(), labels_of::<usize>(&y)).with_feature_names(names), x, q)
+}
+fn build_tree_dupnames(p: &P) -> DecisionTree<f64, usize> {
+    let (ds, _, _) = tree_dupnames_dataset(p);
+    DecisionTree::params().fit(&ds).expect("tree fit")
+}
+fn fp_tree_dupnames(m: &DecisionTree<f64, usize>, p: &P, f: &mut Fingerprint) {
+    let (_, x, q) = tree_dupnames_dataset(p);
+    fp_tree(m, &x, &q, true, f);
+    // every node's own name, in tree order
+    let names: Vec<String> = m.iter_nodes().map(|n| n.feature_name().cloned().unwrap_or_default()).collect();
+    f.text("node_feature_names", &names.join("|"));
+}
 fn build_tree_clean(p: &P) -> DecisionTree<f64, usize> {
     let (x, y) = tree_clean_data(p);
     DecisionTree::params().fit(&Dataset::new(x, y)).expect("tree fit")
@@ -976,6 +995,7 @@ fn register_trees(r: &mut Registry) {
     r.model::<DecisionTree<f64, Option<String>>>("tree_model_option_string", K, T_M, None, build_tree::<Option<String>>, fp_tree_model::<Option<String>>, Some(|a, b| a == b));
     r.model::<DecisionTree<f64, bool>>("tree_model_bool", K, T_M, c20, build_tree::<bool>, fp_tree_model::<bool>, Some(|a, b| a == b));
     r.model::<DecisionTree<f64, String>>("tree_model_entropy_string", K, T_M, c20, build_tree_entropy::<String>, fp_tree_model::<String>, Some(|a, b| a == b));
+    r.model::<DecisionTree<f64, usize>>("tree_model_duplicate_feature_names", K, T_M, None, build_tree_dupnames, fp_tree_dupnames, Some(|a, b| a == b));
     r.model::<DecisionTree<f64, usize>>("tree_model_clean", K, T_M, c20, build_tree_clean, fp_tree_clean, Some(|a, b| a == b));
     r.model::<DecisionTree<f32, usize>>("tree_model_adjacent_floats_f32", K, T_M, c20, build_tree_adjacent, fp_tree_adjacent, Some(|a, b| a == b));
     r.model::<TreeNode<f64, usize>>("tree_node", K, &["TreeNode"], None, build_tree_node, fp_tree_node, Some(|a, b| a == b));
